@@ -476,7 +476,11 @@ func orchestrate(id, tier string) int {
 			if len(lg) > 4000 {
 				lg = lg[:4000]
 			}
-			inconcl = append(inconcl, fmt.Sprintf("worker %d died (%v); last journalled case: %s; log: %s", i, errs[i], strings.TrimSpace(string(j)), string(lg)))
+			js := strings.TrimSpace(string(j))
+			if len(js) > 4000 {
+				js = js[:4000] + fmt.Sprintf("... (%d bytes)", len(js))
+			}
+			inconcl = append(inconcl, fmt.Sprintf("worker %d died (%v); last journalled case: %s; log: %s", i, errs[i], js, string(lg)))
 			if m.ID == "C08" && len(j) > 0 {
 				// For the totality property a dead worker is itself the refuting event.
 				cs := json.RawMessage(strings.TrimSpace(string(j)))
